@@ -160,7 +160,9 @@ fn two_servers(ctx: &mut Ctx) {
 
 // ------------------------------------------------------------------------------------------------
 #[derive(Default)]
-pub struct ClientLog { pub puts: Vec<(MerkleHash, usize, usize, usize)>, pub put_returns: usize, pub shards: Vec<usize>, pub order: Vec<String> }
+pub struct ClientLog { pub puts: Vec<(MerkleHash, usize, usize, usize)>, pub put_returns: usize, pub shards: Vec<usize>, pub order: Vec<String>,
+                       /// every xorb HANDED to the store (chunks, bytes), whether or not the store took it
+                       pub attempts: Vec<(MerkleHash, usize, usize)> }
 
 pub struct LoggingClient { pub inner: Arc<LocalClient>, pub log: Arc<Mutex<ClientLog>> }
 
@@ -173,6 +175,7 @@ impl UploadClient for LoggingClient {
     async fn put(&self, prefix: &str, hash: &MerkleHash, data: Vec<u8>, cb: Vec<(MerkleHash, u32)>) -> Result<usize, CasClientError> {
         let (n, len) = (cb.len(), data.len());
         if DRY_UPLOADS.load(std::sync::atomic::Ordering::SeqCst) { return Ok(0); }
+        self.log.lock().unwrap().attempts.push((*hash, n, len));
         let r = self.inner.put(prefix, hash, data, cb).await;
         let mut l = self.log.lock().unwrap();
         l.order.push(format!("put {}", hash.hex()));
@@ -233,6 +236,18 @@ fn oracle_of(events: &[(&'static str, String)]) -> Vec<String> {
         }
     }
     out
+}
+
+/// every chunk of every block lies inside a run that a shard lookup answered (no stored chunk was missed by the lookups)
+fn all_chunks_answered(oracle: &[String]) -> bool {
+    oracle.iter().all(|b| {
+        let mut it = b.split('@');
+        let n: usize = it.next().and_then(|x| x.parse().ok()).unwrap_or(0);
+        let ans = it.next().unwrap_or("-");
+        let mut cov = vec![false; n];
+        if ans != "-" { for a in ans.split(';') { let mut f = a.split(':'); let pos: usize = f.next().and_then(|x| x.parse().ok()).unwrap_or(n); let k: usize = f.next().and_then(|x| x.parse().ok()).unwrap_or(0); for c in cov.iter_mut().skip(pos).take(k) { *c = true; } } }
+        cov.iter().all(|c| *c)
+    })
 }
 
 struct FileSpec { data: Vec<u8>, parts: Vec<usize> }
@@ -337,7 +352,8 @@ pub fn run_child(ctx: &mut Ctx) {
         let mut seen_pointers: HashMap<MerkleHash, (MerkleHash, u64)> = HashMap::new();
         let mut world_ptrs: Vec<(PointerFile, Vec<u8>)> = Vec::new();
         let mut pool: Vec<Vec<u8>> = Vec::new();
-        let nsessions = rng.range(2, 4);
+        let nsessions = if w % 2 == 0 && target <= 2048 { rng.range(3, 4) } else { rng.range(2, 4) };
+        let mut frag_file: Option<Vec<u8>> = None;
         // a third of the worlds start with a DRY RUN of a fresh file (uploads are no-ops and nothing may be remembered as stored);
         // the file is then uploaded for real in the first session and must be reconstructible like every other file
         let mut dry_file: Option<Vec<u8>> = None;
@@ -379,16 +395,24 @@ pub fn run_child(ctx: &mut Ctx) {
             let frag_forced = sno == 1 && w % 2 == 0 && target <= 2048;
             let all_known = !frag_forced && !reupload && sno >= 1 && rng.chance(1, 4) && !world_files.is_empty();
             if all_known { ctx.stat("sessions_of_fully_deduplicated_new_files"); }
-            let nfiles = rng.range(1, 5) as usize;
+            // "many small files merged into shared xorbs": where the limits allow thousands of chunks per xorb, the first session of
+            // the second world cleans 1300..1800 tiny (one-chunk) files, which end up in one shared xorb of that many chunks
+            let many_small = maxc >= 2048 && w == 1 && sno == 0;
+            if many_small { ctx.stat("sessions_of_many_small_files"); }
+            let nfiles = if many_small { rng.range(1300, 1800) as usize } else { rng.range(1, 5) as usize };
             let mut specs: Vec<FileSpec> = Vec::new();
             if sno == 0 { if let Some(d) = dry_file.take() { let l = d.len(); specs.push(FileSpec { data: d, parts: vec![l] }); } }
             // every other world: a large fresh file in the first session and a heavily fragmented one built from it in the second
             if sno == 0 && w % 2 == 0 && target <= 2048 { let n = rng.range(30 * target as u64, 50 * target as u64) as usize; let d = rng.bytes(n); specs.push(FileSpec { data: d, parts: vec![n] }); }
             if frag_forced || (sno >= 1 && !reupload && !all_known && target <= 2048 && rng.chance(1, 4)) {
-                if let Some(sp) = gen_fragmented(&mut rng, target, &world_files) { specs.push(sp); ctx.stat("heavily_fragmented_files"); }
+                if let Some(sp) = gen_fragmented(&mut rng, target, &world_files) { if frag_forced { frag_file = Some(sp.data.clone()); } specs.push(sp); ctx.stat("heavily_fragmented_files"); }
             }
+            // the session after it re-uploads the heavily fragmented file unchanged
+            let frag_again = if sno == 2 { frag_file.clone() } else { None };
+            if let Some(d) = &frag_again { let l = d.len(); specs.push(FileSpec { data: d.clone(), parts: vec![l] }); ctx.stat("heavily_fragmented_files_uploaded_again"); }
             for i in 0..nfiles {
-                let spec = if reupload && i < world_files.len() { let d = world_files[rng.below(world_files.len() as u64) as usize].clone(); let l = d.len(); FileSpec { data: d, parts: vec![l] } }
+                let spec = if many_small { let n = rng.range(1, (target / 2).max(2) as u64) as usize; let d = rng.bytes(n); FileSpec { data: d, parts: vec![n] } }
+                           else if reupload && i < world_files.len() { let d = world_files[rng.below(world_files.len() as u64) as usize].clone(); let l = d.len(); FileSpec { data: d, parts: vec![l] } }
                            else { gen_file(&mut rng, target, &mut pool, &world_files, all_known) };
                 // one record per file hash and session is kept by the shard (BTreeMap): keep contents distinct within a session
                 if specs.iter().any(|s: &FileSpec| s.data == spec.data) { continue; }
@@ -455,6 +479,8 @@ pub fn run_child(ctx: &mut Ctx) {
             drop(session);
             let fin = tp.external_run_async_task(async move { sess2.finalize_with_file_info().await }).unwrap();
             let events = take_events();
+            // C15 on everything that was handed to the store, also when the session then failed
+            for (h, n, len) in log.lock().unwrap().attempts.iter() { if *n == 0 || *len == 0 || *n > maxc || *len > maxb { ctx.fail("C15", "xorb-handed-to-store-violates-limits", format!("xorb {} handed to the store with {n} chunks / {len} bytes (limits {maxc} chunks / {maxb} bytes; session {sno} of the world{})", h.hex(), if all_known { ", all of its files consist of stored chunks" } else if reupload { ", re-uploading stored files" } else { "" }), replay.clone()); } }
             let (smetrics, file_infos) = match fin { Ok(x) => x, Err(e) => { ctx.fail("C01", "finalize-failed", format!("session finalize failed without any injected fault: {e}"), replay.clone()); continue; } };
 
             // ---------------- monitors on the implementation
@@ -496,7 +522,18 @@ pub fn run_child(ctx: &mut Ctx) {
                 }
                 if m.new_bytes + m.deduped_bytes != m.total_bytes || m.new_chunks + m.deduped_chunks != m.total_chunks { ctx.fail("C14", "new-plus-deduped", "new + deduped != total".into(), replay.clone()); }
                 if m.defrag_prevented_dedup_bytes > m.new_bytes { ctx.fail("C14", "prevented-exceeds-new", "withheld bytes exceed new bytes".into(), replay.clone()); }
-                if reupload && m.new_bytes != 0 && world_files.contains(&d.spec.data) { ctx.fail("C11", "repeat-upload-new-bytes", format!("re-upload of an unchanged file of {} bytes in a later session transferred {} new bytes (limits {maxb}/{maxc}, target {target})", d.spec.data.len(), m.new_bytes), replay.clone()); }
+                // a re-upload in which the shard lookups found every chunk and fragmentation prevention rejected runs is the recorded
+                // finding `repeat-upload-bytes-withheld-by-fragmentation-prevention` (a rejected run of n chunks is stored again
+                // entirely, only its first chunk is counted as withheld); a re-upload with a chunk the lookups missed, or new bytes
+                // without any rejection, is a violation of its own
+                if (reupload || frag_again.as_ref() == Some(&d.spec.data)) && m.new_bytes != 0 && world_files.contains(&d.spec.data) {
+                    // (fragmentation prevention needs a history of 128 ranges before it may reject anything: a file of fewer chunks is never excused)
+                    if m.defrag_prevented_dedup_bytes > 0 && m.total_chunks > 128 && all_chunks_answered(&d.oracle) {
+                        ctx.fail("C11", "repeat-upload-bytes-withheld-by-fragmentation-prevention", format!("re-upload of an unchanged file of {} bytes ({} chunks) in a later session transferred {} new bytes although the shard lookups found every one of its chunks: fragmentation prevention rejected the short runs (limits {maxb}/{maxc}, target {target})", d.spec.data.len(), m.total_chunks, m.new_bytes), replay.clone());
+                    } else {
+                        ctx.fail("C11", "repeat-upload-new-bytes", format!("re-upload of an unchanged file of {} bytes in a later session transferred {} new bytes, of which fragmentation prevention explains {} (limits {maxb}/{maxc}, target {target})", d.spec.data.len(), m.new_bytes, m.defrag_prevented_dedup_bytes), replay.clone());
+                    }
+                }
             }
             if metrics_str(&sum) != metrics_str(&smetrics) { ctx.fail("C14", "session-metrics-sum", format!("session metrics {} != sum over files {}", metrics_str(&smetrics), metrics_str(&sum)), replay.clone()); }
             // C11: the shards this session moved into the local shard cache stay valid for the documented cache validity (a shard
@@ -553,6 +590,14 @@ pub fn run_child(ctx: &mut Ctx) {
             let mut xorb_chunks: HashMap<MerkleHash, Vec<(MerkleHash, usize)>> = HashMap::new();
             for (h, _, _, _) in log.lock().unwrap().puts.iter() {
                 match store.get(h) { Ok(data) => { let _ = data; }, Err(e) => ctx.fail("C02", "stored-xorb-unreadable", format!("xorb {} cannot be read back: {e}", h.hex()), replay.clone()) }
+                // C15: "a validating server accepts them" — the seekable validator on the stored object, under the xorb's hash
+                let p = xorb_dir.join("xorbs").join(format!("default.{}", h.hex()));
+                if let Ok(f) = std::fs::File::open(&p) {
+                    match cas_object::CasObject::validate_cas_object(&mut std::io::BufReader::new(f), h) {
+                        Ok(Some(_)) => ctx.stat("stored_xorbs_validated"),
+                        other => ctx.fail("C15", "stored-xorb-rejected-by-validator", format!("xorb {} ({} chunks, limit {maxc}) was handed to the store within all limits, but the validator a server runs on it answers {}", h.hex(), log.lock().unwrap().puts.iter().find(|p| p.0 == *h).map(|p| p.1).unwrap_or(0), match other { Ok(None) => "hash mismatch / invalid".to_string(), Err(e) => format!("{e:?}").chars().take(120).collect(), _ => String::new() }), replay.clone()),
+                    }
+                } else { ctx.stat("stored_xorb_file_not_found_for_validation"); }
             }
             for fi in &file_infos {
                 for (si, s) in fi.segments.iter().enumerate() {
